@@ -9,7 +9,7 @@ fn main() {
     let col: Vec<String> = vec![String::from("a"), String::from("b"), String::from("c")];
     let it = col.con_iter();
     let r = it.next();
-    if let Some(x) = r { let _y = x.clone(); }
     let c = it.next_chunk(2);
-    if let Some(x) = c { let _n = x.values.count(); }
+    drop(it);
+    if let Some(x) = r { let _y = x.clone(); }
 }
